@@ -6,6 +6,7 @@ import (
 	"go/constant"
 	"go/token"
 	"go/types"
+	"hash/crc32"
 	"math/big"
 	"sort"
 	"strings"
@@ -51,32 +52,33 @@ type Outcome struct {
 }
 
 type FnRun struct {
-	E        *Engine
-	Fn       *ssa.Function
-	C        *FuncContract
-	fresh    int
-	parent   *FnRun
-	depth    int
-	Goals    []*Goal
-	Outcomes []*Outcome
-	Entry    *State
-	params   map[string]Val
-	ptypes   map[string]types.Type
-	lets     map[string]Val
-	paths    int
-	loops    map[*ssa.BasicBlock]*loopInfo
-	loopOrd  []*ssa.BasicBlock
-	siteCnt  map[string]int
-	siteIdx  map[ssa.Instruction]int
-	Unsupp   []string
-	implicit bool // implicit panics are outcomes, not obligations
-	idoms    map[*ssa.BasicBlock]*ssa.BasicBlock
+	E            *Engine
+	Fn           *ssa.Function
+	C            *FuncContract
+	fresh        int
+	parent       *FnRun
+	depth        int
+	Goals        []*Goal
+	Outcomes     []*Outcome
+	Entry        *State
+	params       map[string]Val
+	ptypes       map[string]types.Type
+	lets         map[string]Val
+	paths        int
+	loops        map[*ssa.BasicBlock]*loopInfo
+	loopOrd      []*ssa.BasicBlock
+	siteCnt      map[string]int
+	siteIdx      map[ssa.Instruction]int
+	Unsupp       []string
+	implicit     bool // implicit panics are outcomes, not obligations
+	idoms        map[*ssa.BasicBlock]*ssa.BasicBlock
 	LazyDecls    []LogItem
 	lazyDeclared map[string]bool
 	arrSorts     map[string]Sort
 	ghostDecls   map[string]string
 	intMode      bool
-	FnName   string
+	pendingFree  map[string]Val
+	FnName       string
 }
 
 type loopInfo struct {
@@ -148,6 +150,25 @@ func (e *Engine) VerifyFunc(fn *ssa.Function, c *FuncContract) (run *FnRun) {
 		r.params[p.Name()] = v
 		r.ptypes[p.Name()] = p.Type()
 		r.assumeTypeInv(st, v, p.Type())
+	}
+	for _, fv := range fn.FreeVars {
+		// a closure's captured variables: pointers to the enclosing function's cells
+		pt, isPtr := fv.Type().Underlying().(*types.Pointer)
+		if isPtr {
+			addr := st.declare(r.freshName("fv_"+fv.Name()), BV(PtrW, false))
+			st.assume(Not(Eq(addr, BVInt(0, PtrW, false))), "captured variable address")
+			r.assumeValid(st, addr, BVInt(r.E.Sizes.Sizeof(pt.Elem()), 64, false), false)
+			st.regs[fv] = addr
+			v := r.loadAt(st, addr, pt.Elem())
+			r.params[fv.Name()] = v
+			r.ptypes[fv.Name()] = pt.Elem()
+			r.assumeTypeInv(st, v, pt.Elem())
+		} else {
+			v := r.freshVal(st, "fv_"+fv.Name(), fv.Type())
+			st.regs[fv] = v
+			r.params[fv.Name()] = v
+			r.ptypes[fv.Name()] = fv.Type()
+		}
 	}
 	r.Entry = st
 	// requires (assumed), lets
@@ -717,6 +738,7 @@ func (r *FnRun) globalAddr(st *State, g *ssa.Global) Val {
 		return v
 	}
 	t := st.declare(name, BV(PtrW, false))
+	st.assume(Not(Eq(t, BVInt(0, PtrW, false))), "address of a package-level variable is non-nil")
 	st.ghost[key] = t
 	return t
 }
@@ -791,6 +813,7 @@ func (r *FnRun) stringLit(st *State, s string) Val {
 	v := &StructVal{N: stringFields, F: []Val{addr, BVInt(int64(len(s)), 64, true)}}
 	st.ghost[key] = v
 	st.ghost["strtext:"+addr.S] = s
+	st.assume(Ident(strRank(st.memArr("M8"), v), Term{fmt.Sprintf("(strlit_id %d)", crc32.ChecksumIEEE([]byte(s))), Sort{K: KInt, W: 64, Signed: true}}), "identity of the string literal")
 	return v
 }
 
@@ -890,6 +913,17 @@ func (r *FnRun) execInstr(b *ssa.BasicBlock, idx int, ins ssa.Instruction, st *S
 		r.Outcomes = append(r.Outcomes, &Outcome{Kind: "panic", St: st, PanicV: r.operand(st, x.X), Why: "explicit"})
 		return true
 	case *ssa.RunDefers:
+	case *ssa.Defer:
+		// deferred calls are not executed in the model; they are subject to the
+		// effect allow-list like every other call
+		r.E.Notes["deferred call in "+r.FnName+" not executed in the model (checked against the effect allow-list only)"] = true
+		r.checkEffect(st, x, x.Common())
+	case *ssa.MakeClosure:
+		cv := &ClosureVal{Fn: x.Fn.(*ssa.Function)}
+		for _, b := range x.Bindings {
+			cv.Bindings = append(cv.Bindings, r.operand(st, b))
+		}
+		st.regs[x] = cv
 	default:
 		panic(unsupported(fmt.Sprintf("instruction %T (%s)", ins, ins)))
 	}
@@ -948,6 +982,8 @@ func (r *FnRun) binopVals(st *State, ins ssa.Instruction, op token.Token, a, b V
 				// concatenation: a fresh string of the summed length (contents not modelled)
 				res := r.freshVal(st, "concat", xt).(*StructVal)
 				st.assume(Eq(res.F[1].(Term), Add(sa.F[1].(Term), sb.F[1].(Term))), "len(a+b) = len(a)+len(b)")
+				m8 := st.memArr("M8")
+				st.assume(Ident(strRank(m8, res), Term{app("sconcat_id", strRank(m8, sa), strRank(m8, sb)), Sort{K: KInt, W: 64, Signed: true}}), "contents of a+b determined by the contents of a and b")
 				return res
 			}
 			// string comparison by contents: only against literals of known text / lengths
@@ -1254,7 +1290,9 @@ func (r *FnRun) fieldAddr(st *State, x *ssa.FieldAddr) Val {
 	t := base.(Term)
 	elemT := x.X.Type().Underlying().(*types.Pointer).Elem()
 	stt := elemT.Underlying().(*types.Struct)
-	r.implicitCheck(st, x, "nil", Not(Eq(t, BVInt(0, PtrW, false))))
+	if !derivedAddr(x.X) {
+		r.implicitCheck(st, x, "nil", Not(Eq(t, BVInt(0, PtrW, false))))
+	}
 	off := r.fieldOffset(stt, x.Field)
 	addr := Add(t, BVInt(off, PtrW, false))
 	if _, ok := r.fieldComps("", stt, x.Field); !ok {
